@@ -27,8 +27,10 @@ pub fn run_e1<F: Future>(seed: u64, io: bool, ctx: &Ctx, fut: F) -> F::Output {
         out
     });
     // Drop order: LocalSet (cancels remaining local tasks) then runtime.
+    ctx.freeze(true);
     drop(local);
     rt.shutdown_timeout(Duration::from_millis(0));
+    ctx.freeze(false);
     out
 }
 
@@ -92,6 +94,7 @@ pub struct E1Hook {
     pub on_event: Mutex<Option<Box<dyn Fn(&str, &str) + Send + Sync>>>,
     /// last value handed out for `pkarr.timestamp.now` (per-run monotonic clock)
     last_ts: Mutex<u64>,
+    next_conn_id: Mutex<u64>,
 }
 
 pub struct HookGuard(pub Arc<E1Hook>);
@@ -113,6 +116,7 @@ impl E1Hook {
             log_events: true,
             on_event: Mutex::new(None),
             last_ts: Mutex::new(0),
+            next_conn_id: Mutex::new(0),
         });
         verif::install(Some(h.clone() as Arc<dyn Hook>));
         HookGuard(h)
@@ -142,6 +146,12 @@ impl Hook for E1Hook {
         }
     }
     fn stub(&self, site: &'static str, arg: &str) -> Option<String> {
+        if site == "relay.connection_id.next" {
+            // per-run counter instead of the process-global one
+            let mut n = self.next_conn_id.lock().unwrap();
+            *n += 1;
+            return Some((*n - 1).to_string());
+        }
         if site == "pkarr.timestamp.now" {
             // strictly monotonic per run, driven by the simulated wall clock
             let wall = self.wall_clock_micros()?;
